@@ -35,6 +35,13 @@ class RAB(RA, RB):
     pass
 
 
+class RAFalsy(RA):
+    """a resource value that is falsy (an empty container): still a resource"""
+
+    def __len__(self) -> int:
+        return 0
+
+
 RT = {"RA": RA, "RB": RB}
 
 
@@ -141,9 +148,9 @@ class Tree:
                     await anyio.lowlevel.checkpoint()
                 elif k == "add":
                     _, tname, name, label = st[:4]
-                    v = (RAB if tname == "RAB" else RT[tname])(label)
+                    v = (RAB if tname == "RAB" else RAFalsy if tname == "RAF" else RT[tname])(label)
                     self.values[label] = v
-                    types = [RA, RB] if tname == "RAB" else RT[tname]
+                    types = [RA, RB] if tname == "RAB" else RA if tname == "RAF" else RT[tname]
                     kw = {}
                     if len(st) > 4 and st[4]:
                         kw["teardown_callback"] = lambda l=label: env.log("td", "res:" + l)
@@ -193,8 +200,25 @@ class Tree:
                 elif k == "td":
                     ac.add_teardown_callback(lambda l=st[1]: env.log("td", l))
                     env.log("td-reg", st[1])
+                elif k == "par":
+                    # several requests pending at once in one component (tasks started from its method)
+                    async with anyio.create_task_group() as tg:
+                        for i, sub in enumerate(st[1]):
+                            tg.start_soon(self.run_steps, path, f"{phase}#{i}", sub)
                 elif k == "svc":
                     await self._start_service(path, phase, st)
+                elif k == "svc-hs":
+                    await self._start_handshake_service(path, phase, st)
+                elif k == "bad-factory":
+                    # a resource factory that raises a LookupError subclass, then a lookup through it
+                    def boom() -> Any:
+                        exc = KeyError(f"{path}:{phase}")
+                        self.raised.append(exc)
+                        env.log("failing", path, phase)
+                        raise exc
+
+                    ac.add_resource_factory(boom, "boom_" + (path.replace(".", "_") or "root"), types=RB)
+                    await ac.get_resource(RB, "boom_" + (path.replace(".", "_") or "root"))
                 elif k == "fail":
                     env.log("failing", path, phase)
                     exc = (CompFail if st[1] == "E" else CompFail2)(f"{path}:{phase}")
@@ -250,6 +274,29 @@ class Tree:
                         await anyio.Event().wait()
                     elif b[0] == "get":
                         await self.run_steps(f"svc:{label}", "body", [b])
+            except BaseException as e:
+                env.log("svc!", label, type(e).__name__)
+                raise
+            finally:
+                env.log("svc-", label)
+
+        await ac.start_service_task(service, label)
+        env.log("svc-started", label)
+
+    async def _start_handshake_service(self, path: str, phase: str, st: tuple) -> None:
+        """a service task that needs time (one gate) before it reports started(): start_service_task() suspends meanwhile"""
+        import asphalt.core as ac
+
+        env = self.env
+        label = st[1]
+
+        async def service(*, task_status: Any) -> None:
+            env.log("svc+", label)
+            try:
+                await env.gate(f"svc:{label}:handshake")
+                task_status.started()
+                env.log("svc-up", label)
+                await anyio.Event().wait()
             except BaseException as e:
                 env.log("svc!", label, type(e).__name__)
                 raise
